@@ -1,5 +1,6 @@
 (** C08 — Here-document bodies are attached to the right redirection, verbatim. *)
-From GoSh Require Import Base.Bytes Proto.Confluence Proto.LTS Lex.Heredoc.
+From GoSh Require Import Base.Bytes Proto.Confluence Proto.LTS Lex.Heredoc Lex.HeredocExp Lex.DelimUnquote.
+From GoSh Require Import Expand.Expand Lex.Quote.
 
 (** Under every schedule of the lexer / parser pair the redirections are taken by the lexer in
     the order the parser pushed them (the k-th body read goes to the k-th here-document operator). *)
@@ -31,5 +32,48 @@ Theorem C08_unterminated_is_error :
 Proof. exact heredoc_unterminated. Qed.
 Print Assumptions C08_unterminated_is_error.
 
-(** Not proved: expanding bodies (unquoted delimiter: $, backquote, backslash scanning) and the
-    quote removal of the delimiter word; decided by the generator-driven check on the implementation. *)
+(** For an unquoted delimiter (body without '$' and backquote; Lex/HeredocExp.v, run against the
+    implementation on every check): every body whose logical lines -- physical lines joined by
+    backslash-newline -- differ from the delimiter is returned with the continuations removed and
+    every other backslash pair kept as written; the first logical line equal to the delimiter ends
+    it (a physical line that spells the delimiter but continues a line does not), and reading
+    stops right after it. *)
+Theorem C08_expanding_body :
+  forall dash delim ls dl rest acc fuel,
+    forallb (fun l => line_ok l && negb (is_delim dash delim (line_text l))) ls = true ->
+    line_ok dl = true -> is_delim dash delim (line_text dl) = true ->
+    (body_cost ls + line_cost dl <= fuel)%nat ->
+    read_exp fuel dash delim (body_src ls ++ line_src dl ++ rest) acc [] = HOk (acc ++ body_text ls) (line_text dl) rest.
+Proof. exact heredoc_expanding_body. Qed.
+Print Assumptions C08_expanding_body.
+
+Theorem C08_expanding_unterminated_is_error :
+  forall dash delim ls acc fuel,
+    forallb (fun l => line_ok l && negb (is_delim dash delim (line_text l))) ls = true ->
+    is_delim dash delim [] = false ->
+    read_exp fuel dash delim (body_src ls) acc [] = HErr.
+Proof. exact heredoc_expanding_unterminated. Qed.
+Print Assumptions C08_expanding_unterminated_is_error.
+
+(** The delimiter matches after quote removal, and the body is scanned if and only if no part of
+    the delimiter word was quoted: for a word written under the literal quotings (single, double
+    with its escapes, backslash, any mixture, nested) the delimiter is the text and the word counts
+    as quoted; a plain literal is its own delimiter and is not. *)
+Theorem C08_delimiter_after_quote_removal :
+  forall w text, word_text w = Some text ->
+    lits_text (fst (unq w)) = Some text /\ snd (unq w) = negb (Nat.eqb (length w) 0).
+Proof. exact delimiter_of_quoted_word. Qed.
+Print Assumptions C08_delimiter_after_quote_removal.
+
+Theorem C08_plain_delimiter_is_unquoted : forall t, unq [WLit t] = ([WLit t], false).
+Proof. exact delimiter_of_plain_word. Qed.
+Print Assumptions C08_plain_delimiter_is_unquoted.
+
+(** the premises are met: a continued line that spells the delimiter, an escaped dollar, then the delimiter *)
+Example C08_expanding_witness :
+  read_exp 40 false [69] ([107; 92; 10; 69; 10] ++ [92; 36; 120; 10] ++ [69; 10] ++ [122]) [] [] = HOk [107; 69; 10; 92; 36; 120; 10] [69] [122].
+Proof. vm_compute. reflexivity. Qed.
+
+(** Not proved: '$' and backquote expansions inside a scanned body (their text is kept as
+    written; a delimiter-like line inside a multi-line expansion does not end the body); decided
+    by the generator-driven check on the implementation. *)
